@@ -34,6 +34,11 @@ CHECKS = {
    text="Every set of <=K intentions over sources {a, b, *} x {local, peer p1}, destinations {x, *} and actions {allow, deny, L7 permissions} is written to a real store in every order (service-intentions config entries with incrementally growing source lists, a read-modify-write variant that renames a stored source, and legacy rows in legacy mode). For every source in {a, b, c}, peer, destination in {x, y} and both defaults the decision obtained through IntentionMatchOne + IntentionDecision (from the destination side and from the source side) must equal the reference (single most specific match: destination specificity before source specificity, else default); match lists must be in precedence order and identical for all write orders.",
    note="K=3 quick, 4 thorough. L7 intentions are decided as 'has permissions' (no request is evaluated here; C14 evaluates requests).",
    design="§3 C13"),
+ "C20": dict(level="fault_enumeration", engine="E3 grid",
+   technique="exhaustive fault enumeration over a fresh archive: every byte position x flip values, every truncation, every member edit, gzip-level damage; reject-or-exact oracle with position classes",
+   text="For each payload size and metadata variant a fresh archive is written by the real writer; then every byte position is flipped (5 patterns quick, all 255 values thorough), the archive is cut at every length, every member is removed, reordered, duplicated, shadowed by an injected copy, and an extra member of every tar entry type is injected at every position; SHA256SUMS lines are dropped, duplicated and extended. The same member edits, every gzip byte position and truncation, trailing garbage and concatenated gzip members go through the exported snapshot.Read. Every outcome must be reject, or accept with exactly the original state bytes and metadata; damage inside state.bin or meta.json content, a missing member or checksum line, a cut before the last member is complete, or any extra member must be rejected; no file handle may be returned together with an error.",
+   note="Position classes are computed from the tar layout of the pristine archive. Evidence lists (position class, outcome) cell counts.",
+   design="§3 C20"),
  "C10": dict(level="exploration", engine="E3 grid",
    technique="exhaustive enumeration of command family x pre-state x supplied-index grid on the real FSM; matched/applied/reported oracle on full state dumps",
    text="Every conditional command type (KV cas/delete-cas direct and in transactions, check-index guards, catalog node/service/check cas and delete-cas incl. writers carrying a different node ID, config entry upsert-cas/with-status-cas/delete-cas, CA set-config, CA set-roots, CA set-roots-and-config with the cross product of both indexes, autopilot CAS, ACL token CAS, feature-gate update with both expected indexes) is applied to every pre-state (absent, present, modified, re-created, deleted) with every supplied index class (0, current, previous, future). Matched is computed from the pre-state; applied from a byte comparison of the full 36-table dump; required: matched<=>applied<=>reported, and composites all-or-nothing.",
